@@ -299,3 +299,21 @@ Theorem C05_shared_table_guards_satisfiable :
   fst (fst (run_diff_io_m hexhash (fun _ _ => []) no_skip no_skip cfg_default true (fun _ => []) ex_alias_t1 ex_alias_t2)) <> [].
 Proof. exact shared_table_guards_satisfiable. Qed.
 Print Assumptions C05_shared_table_guards_satisfiable.
+
+(* K1 seen through the knob clause: outside tag_safe not even knob independence holds.  [{'NONE'}] vs [{None,'NONE'}] with
+   report_repetition=True: DeepHash counts the member hashes of the set items (ignore_repetition=False) and None / 'NONE' have
+   one hash, so the two items hash differently ('set:h|1' / 'set:h|2') and are reported as added / removed when no pairs are
+   computed; once paired, _diff_set compares the sets of member hashes and reports nothing.  Every other guard holds. *)
+From DD Require Import DiffIO.DiffIOTagWitness.
+Theorem C05_tag_collision_knob_refuted :
+  forall udiff,
+  let t1 := VList [VSet [AStr (s2p "NONE")]] in
+  let t2 := VList [VSet [ANone; AStr (s2p "NONE")]] in
+  wf t1 = true /\ wf t2 = true /\ alias_free2 t1 t2 = true /\ tag_safe t1 = false /\
+  run_diff_io hexhash udiff no_skip no_skip cfg_default true (fun _ => [(0, 0)]%nat) t1 t2 = ([], []) /\
+  fst (run_diff_io hexhash udiff no_skip no_skip cfg_default true (fun _ => []) t1 t2) <> [] /\
+  fst (run_diff_io_m hexhash udiff no_skip no_skip cfg_default true (fun _ => [(0, 0)]%nat) t1 t2) = ([], []) /\
+  fst (fst (run_diff_io_m hexhash udiff no_skip no_skip cfg_default true (fun _ => []) t1 t2)) <> [] /\
+  (forall pairs, run_diff_io hexhash udiff no_skip no_skip cfg_default false pairs t1 t2 = ([], [])).
+Proof. exact tag_collision_knob_refuted. Qed.
+Print Assumptions C05_tag_collision_knob_refuted.
